@@ -206,14 +206,14 @@ TRANS_TRUSTED = "tie T3 = tools/gotrans: the listed Go functions / statement seg
 _TF = ["TransEquiv.GetFIN_eq", "TransEquiv.GetRSV1_eq", "TransEquiv.GetRSV2_eq", "TransEquiv.GetRSV3_eq", "TransEquiv.GetOpcode_eq", "TransEquiv.GetMask_eq",
        "TransEquiv.GetLengthCode_eq", "TransEquiv.isDataFrame_eq"]
 _TR = ["TransEquiv.readMessage_header_eq", "TransEquiv.readControl_guards_eq"]
-_TC = ["TransEquiv.emitClose_body_eq", "TransEquiv.local_close_body_eq", "TransEquiv.closeViaWrite_split_eq", "TransEquiv.StatusCode_Bytes_eq",
+_TC = ["TransEquiv.emitError_status_eq", "TransEquiv.emitError_status_write", "TransEquiv.emitClose_body_eq", "TransEquiv.local_close_body_eq", "TransEquiv.closeViaWrite_split_eq", "TransEquiv.StatusCode_Bytes_eq",
        "TransEquiv.CheckEncoding_eq", "TransEquiv.classify_u16"]
 _TN = ["TransEquiv.setThreshold_eq", "TransEquiv.initServerOption_pd_eq", "TransEquiv.initClientOption_pd_eq"]
 _TL = ["TransEquiv.initServerOption_limits_pos", "TransEquiv.initClientOption_limits_pos"]
 _TP = ["TransEquiv.Parse_eq", "TransEquiv.afterPayload_eq", "TransEquiv.readControl_body_eq", "TransEquiv.emitMessage_eq",
        "TransEquiv.readMessage_payload_eq", "TransEquiv.readMessage_eq_step"]
 _TRANS = {
-    "C03": (["Gws.Props.TransFrame", "Gws.Props.TransReader", "Gws.Props.TransParse", "Gws.Props.TransFragment", "Gws.Props.TransControl", "Gws.Props.TransEmit", "Gws.Props.TransStep"], _TF + _TR + _TP),
+    "C03": (["Gws.Props.TransClose", "Gws.Props.TransFrame", "Gws.Props.TransReader", "Gws.Props.TransParse", "Gws.Props.TransFragment", "Gws.Props.TransControl", "Gws.Props.TransEmit", "Gws.Props.TransStep"], _TF + _TR + _TP + ["TransEquiv.emitError_status_eq"]),
     "C04": (["Gws.Props.TransFrame", "Gws.Props.TransReader", "Gws.Props.TransParse", "Gws.Props.TransFragment", "Gws.Props.TransControl", "Gws.Props.TransEmit", "Gws.Props.TransStep", "Gws.Props.TransWindow", "Gws.Props.TransNego"],
             _TF + _TR + _TP + ["TransEquiv.binaryCeil_eq", "TransEquiv.Max_eq"] + _TL),
     "C13": (["Gws.Props.TransFrame", "Gws.Props.TransReader", "Gws.Props.TransParse", "Gws.Props.TransFragment", "Gws.Props.TransControl", "Gws.Props.TransEmit", "Gws.Props.TransStep", "Gws.Props.TransNego", "Gws.Props.TransLimited"],
